@@ -8,6 +8,56 @@ import re
 import numpy as np
 from harness import common as C
 
+# ----------------------------------------------------------------------------- source tie (harness/translate.py)
+# Regenerated on every run into lean/TaurexModel/Gen/SrcC10.lean; lean/Props/C10Src.lean proves each definition equal to
+# the hand-written model of TaurexModel/Chemistry.lean.  dialect='arr': the idioms of harness/translate_arr.py
+# (python lists of arrays are `List (Nat → α)`; lists of names / gas objects are opaque sequences indexed by position).
+_CDIR = 'taurex/data/profiles/chemistry/'
+_LOG = r'^self\.(debug|info|warning|error|critical)\('
+SRC_SPECS = [
+    dict(module=_CDIR + 'gas/constantgas.py', cls='ConstantGas', func='initialize_profile', lean='constant_gas',
+         dialect='arr', params=dict(nlayers='nat', temperature_profile='skip', pressure_profile='skip',
+                                    altitude_profile='skip'),
+         attrs={'self._mix_ratio': ('mix_ratio', 's'), 'self._mix_array': ('mix_array', 'arr')},
+         state=['self._mix_array']),
+    dict(module=_CDIR + 'gas/twopointgas.py', cls='TwoPointGas', func='initialize_profile', lean='two_point_gas',
+         dialect='arr', params=dict(nlayers='nat', temperature_profile='skip', pressure_profile='arr',
+                                    altitude_profile='skip'),
+         lens={'pressure_profile': 'nP'},
+         attrs={'self._mix_surface': ('mix_surface', 's'), 'self._mix_top': ('mix_top', 's'),
+                'self._mix_profile': ('mix_profile', 'arr')}, state=['self._mix_profile']),
+    # PowerGas.initialize_profile from `P = pressure_profile*1e-5` on: the formula with the resolved coefficients
+    # (mix_surface, alpha, beta, gamma are the locals the preceding look-up has set); np.power(P, alpha) is the external
+    # `rpow`; 1e-5 is the parameter `c1em05`
+    dict(module=_CDIR + 'gas/powergas.py', cls='PowerGas', func='initialize_profile', lean='power_gas', dialect='arr',
+         params=dict(nlayers='skip', temperature_profile='arr', pressure_profile='arr', altitude_profile='skip'),
+         attrs={'self._mix_profile': ('mix_profile', 'arr')}, state=['self._mix_profile'],
+         start_at='P = pressure_profile * 1e-05', free_locals=dict(mix_surface='s', alpha='s', beta='s', gamma='s'),
+         externals={'**': ('rpow', 2)}),
+    dict(module=_CDIR + 'taurexchemistry.py', cls='TaurexChemistry', func='fill_atmosphere',
+         callname='self.fill_atmosphere', lean='fill_atmosphere', dialect='arr', params=dict(mixratio_remainder='arr'),
+         lens={'self._fill_gases': 'nFill'}, seqs=['self._fill_gases'],
+         attrs={'self._fill_ratio': ('fill_ratio', 'slist')}, locals={'fill': 'rows'}, returns='rows'),
+    # initialize_chemistry up to the row list `mix_profile` (fill gases first); none = InvalidChemistryException.
+    # `gas.initialize_profile(...)` is an effect on the gas object: `gas.mixProfile` afterwards is the parameter `gasMix k`
+    # (k the position of the gas), every profile having `nlayers` entries.  np.vstack and the base-class call (which runs
+    # compute_mu_profile, tied below) are after `stop_at`.
+    dict(module=_CDIR + 'taurexchemistry.py', cls='TaurexChemistry', func='initialize_chemistry',
+         lean='initialize_chemistry', dialect='arr',
+         params=dict(nlayers='nat', temperature_profile='skip', pressure_profile='skip', altitude_profile='skip'),
+         lens={'self._gases': 'nGases'}, seqs=['self._gases'], elem_attrs={'mixProfile': ('gasMix', 'arr', 'nlayers')},
+         locals={'mix_profile': 'rows'}, row_len='nlayers',
+         ignore_calls=_LOG + r'|^gas\.initialize_profile\(nlayers, temperature_profile, pressure_profile, '
+                             r'altitude_profile\)$',
+         returns='optrows', raise_value='none',
+         stop_at='mix_profile = self.fill_atmosphere(mixratio_remainder) + mix_profile', result=['mix_profile']),
+    dict(module=_CDIR + 'autochemistry.py', cls='AutoChemistry', func='compute_mu_profile', lean='compute_mu_profile',
+         dialect='arr', params=dict(nlayers='nat'), lens={'self.gases': 'nGas'}, seqs=['self.gases'],
+         attrs={'self.mixProfile': ('mixProfile', 'arr2'), 'self.mu_profile': ('mu_profile', 'arr')},
+         state=['self.mu_profile'], elem_funcs={'self.get_molecular_mass': ('massAt', 's')},
+         not_none=['self.mixProfile']),
+]
+
 RULE = ('real TaurexChemistry with 1-4 fill gases (random ratios 1e-6..2) and 0-5 trace gases drawn from all five '
         'built-in profile classes; layer counts 2-120, deliberately not multiples of ten (10/25/45 pinned in the '
         'corpus); real Simple/Array pressure grids; random subsets of the molecules registered in OpacityCache '
@@ -26,6 +76,10 @@ ASSUMPTIONS = [
     'trace abundances and control values > 0 (constant gas: >= 0), fill ratios >= 0, pressure grid > 0 and '
     'decreasing, no duplicate molecule, smoothing window a percentage in [0, 100]',
     'rounding: model on Float vs numpy doubles compared to 1e-10 relative; sums to one within 1e-12',
+    'source tie (Props/C10Src.lean): gas.mixProfile after gas.initialize_profile(...) is a profile of nlayers entries '
+    '(parameter gasMix); x + 0 = x for the `mixratio_remainder += np.zeros(nlayers)` step; initialize_chemistry is tied '
+    'up to the row list mix_profile (np.vstack and the base-class call that runs compute_mu_profile come after); '
+    'PowerGas is tied from `P = pressure_profile*1e-5` on (coefficients already resolved)',
 ]
 
 FILL_POOL = ['H2', 'He', 'N2', 'CO2', 'H2O', 'O2']
